@@ -39,10 +39,11 @@ def census(mg):
     nt = no = 0
     ids = set()
     for o in gc.get_objects():
-        if isinstance(o, mg.Tensor):
+        tp = type(o)  # (not isinstance: it dereferences weakref proxies, which may be dead)
+        if issubclass(tp, mg.Tensor):
             nt += 1
             ids.add(id(o))
-        elif isinstance(o, Operation):
+        elif issubclass(tp, Operation):
             no += 1
     return nt, no, ids
 
@@ -332,6 +333,9 @@ def check_release(case, rec):
                         if not np.shares_memory(gv, g1):
                             return Mismatch("stale_view_grad", f"after a second backward through h{h}, a kept view of h{h} reports a gradient "
                                                                f"that is not a view of h{h}.grad: {gv.ravel()[:4].tolist()}")
+                        if gv.shape != t.shape:
+                            return Mismatch("view_grad_shape", f"after a second backward through h{h}, a kept view of h{h} of shape "
+                                                               f"{t.shape} reports a gradient of shape {gv.shape}")
                         exp_v = _corresponding_view(x.data, t.data, g1)
                         if exp_v is not None and (gv.shape != exp_v.shape or not np.array_equal(gv, exp_v)):
                             return Mismatch("stale_view_grad", f"after a second backward through h{h}, a kept view of h{h} reports "
